@@ -2,6 +2,7 @@
 C10 — bus address map: RAM, I/O registers and ports never alias or leak.
 -/
 import Emu2a.Spec.BusMap
+import Emu2a.Model.Machine
 import Emu2a.Lemmas.Fin
 namespace Emu2a.C10
 open Emu2a
@@ -85,6 +86,20 @@ theorem abs_read (b : Bus) (a x : Byte) (h : b.abs.read a = some x) : b.read a =
 The harness checks `bus == clone-before` on the Rust side after every read. -/
 theorem read_pure (b : Bus) (a : Byte) : (b.apply (.read a)) = b := rfl
 
+/-- A key press raises the status exactly as the map says: request bit always, pending bit iff the
+key-edge enable bit of the mask is set; nothing else of the map changes. -/
+theorem abs_keyIrq (b : Bus) : b.keyIrq.abs = b.abs.keyIrq := by
+  unfold Bus.keyIrq BusSpec.keyIrq Bus.keyEdgeEnabled Bus.abs
+  by_cases h : b.micr &&& 0x01#8 = 0#8
+  · simp [h, Gen.C.micrKeyEdge, Gen.C.misrKeyActive]
+  · simp [h, Gen.C.micrKeyEdge, Gen.C.misrKeyActive, Gen.C.misrKeyPending]
+    ext i; simp [Bool.or_assoc]; cases b.misr[i] <;> simp [Bool.or_comm]
+
+/-- `Bus.keyIrq` is what the machine's key-interrupt entry point does to the bus. -/
+theorem keyIrq_machine (m : Machine) : m.keyInterrupt.core.bus = m.core.bus.keyIrq := by
+  unfold Machine.keyInterrupt Bus.keyIrq
+  by_cases h : m.core.bus.keyEdgeEnabled <;> simp [h]
+
 theorem abs_apply (b : Bus) (op : BusOp) : (b.apply op).abs = b.abs.apply op := by
   cases op with
   | write a v => exact abs_write b a v
@@ -94,6 +109,7 @@ theorem abs_apply (b : Bus) (op : BusOp) : (b.apply op).abs = b.abs.apply op := 
     have : i = 0 ∨ i = 1 ∨ i = 2 ∨ i = 3 := by omega
     rcases this with h | h | h | h <;> subst h <;> rfl
   | setDi1 v => rfl
+  | keyIrq => exact abs_keyIrq b
 
 /-- **C10 (refinement)**: after *any* sequence of writes, reads, input-register and input-port changes
 the concrete bus, seen through the abstraction, is the abstract map after the same sequence. -/
@@ -125,6 +141,15 @@ returns the interrupt status (not the mask). -/
 theorem f9_split (b : Bus) (v : Byte) :
     b.read 0xF9#8 = b.misr ∧ (b.write 0xF9#8 v).micr = v &&& 0x3F#8 ∧ (b.write 0xF9#8 v).misr = b.misr :=
   ⟨rfl, rfl, rfl⟩
+
+/-- No write, whatever address and value, changes the interrupt status a read of 0xF9 returns; only a
+key press does. -/
+theorem status_only_by_key (s : BusSpec) (a v : Byte) : (s.write a v).read 0xF9#8 = s.read 0xF9#8 := by
+  unfold BusSpec.write
+  split
+  · rename_i h; simp [BusSpec.read]
+  · repeat' split
+    all_goals simp [BusSpec.read]
 
 /-- Reads of 0xF0 / 0xF1 / 0xF3 return the board's input port and its two status registers. -/
 theorem board_reads (b : Bus) :
